@@ -1692,6 +1692,10 @@ class Emitter:
                 self.pre.append(self.exc_check())
                 text = t
         if ref:
+            if discard:
+                # `x = y;` / `f();` as a statement: the reference result is not used. (Emitting `(*f());` made CBMC drop every
+                # path through the statement -- a partial vacuity no end-of-harness canary can see.)
+                return text
             return '(*%s)' % text
         return text
 
